@@ -1,8 +1,15 @@
 """C04 — TOAST tiles partition the sphere, nest exactly, and are route-independent."""
 PROPERTY = "C04"
 LEVEL = "other"
-CONTRACT_MODULES = ["contracts.specfuns", "contracts.lemmas_desc", "contracts.toastgeom"]
-FUNCTIONS = ["toasty.toast._div4", "toasty.toast.create_single_tile"]
+CONTRACT_MODULES = ["contracts.specfuns", "contracts.lemmas_desc", "contracts.pyramid", "contracts.parallel", "contracts.walk", "contracts.reducer", "contracts.lemmas_embed", "contracts.generator", "contracts.image", "contracts.merge", "contracts.pyramidio", "contracts.study", "contracts.multitan", "contracts.multiwcs", "contracts.toastsample", "contracts.toastgeom", "contracts.toastgen"]
+FUNCTIONS = [
+    "toasty.toast._div4",
+    "toasty.toast.create_single_tile",
+    "toasty.toast.toast_tile_for_point",
+    "toasty.toast._postfix_corner",
+    "toasty.toast.generate_tiles_filtered",
+    "toasty.toast.generate_tiles",
+]
 LEMMAS = ["nested_div_by_two"]
 SLOW = ()
 TRUSTED_BASE = ["pyvc VC generator; z3/cvc5", "compiled mid(a, b): symmetric great-circle midpoint"]
